@@ -308,6 +308,17 @@ int nsync_cv_wait_with_deadline_generic (nsync_cv *pcv, void *pmu,
 	return (outcome);
 }
 
+/* Wake the waiter *nw, which was enqueued via nsync_cv_waitable_funcs (e.g., by
+   nsync_wait_n()) and has just been removed from pcv->waiters by a caller that
+   still holds pcv's spinlock.  Such a waiter has no remove_count:  cv_dequeue()
+   decides whether it is still queued from nw->waiting alone, and the owner may
+   reuse *nw as soon as cv_dequeue() returns.  So *nw must be woken, and not
+   touched again, before the spinlock is released. */
+static void wake_non_native_waiter (struct nsync_waiter_s *nw) {
+	ATM_STORE_REL (&nw->waiting, 0); /* release store */
+	nsync_mu_semaphore_v (nw->sem);
+}
+
 /* Wake at least one thread if any are currently blocked on *pcv.  If
    the chosen thread is a reader on an nsync_mu, wake all readers and, if
    possible, a writer. */
@@ -333,8 +344,10 @@ void nsync_cv_signal (nsync_cv *pcv) {
 						ATM_LOAD (&DLL_WAITER (first)->remove_count);
 				} while (!ATM_CAS (&DLL_WAITER (first)->remove_count,
 						   old_value, old_value+1));
+				to_wake_list = nsync_dll_make_last_in_list_ (to_wake_list, first);
+			} else {
+				wake_non_native_waiter (first_nw);
 			}
-			to_wake_list = nsync_dll_make_last_in_list_ (to_wake_list, first);
 			if ((first_nw->flags & NSYNC_WAITER_FLAG_MUCV) != 0 &&
 			    DLL_WAITER (first)->l_type == nsync_reader_type_) {
 				int woke_writer;
@@ -375,9 +388,11 @@ void nsync_cv_signal (nsync_cv *pcv) {
 								    &DLL_WAITER (p)->remove_count);
 							} while (!ATM_CAS (&DLL_WAITER (p)->remove_count,
 									   old_value, old_value+1));
+							to_wake_list = nsync_dll_make_last_in_list_ (
+								to_wake_list, p);
+						} else {
+							wake_non_native_waiter (p_nw);
 						}
-						to_wake_list = nsync_dll_make_last_in_list_ (
-							to_wake_list, p);
 					}
 				}
 			}
@@ -420,8 +435,10 @@ void nsync_cv_broadcast (nsync_cv *pcv) {
 					old_value = ATM_LOAD (&DLL_WAITER (p)->remove_count);
 				} while (!ATM_CAS (&DLL_WAITER (p)->remove_count,
 						   old_value, old_value+1));
+				to_wake_list = nsync_dll_make_last_in_list_ (to_wake_list, p);
+			} else {
+				wake_non_native_waiter (p_nw);
 			}
-			to_wake_list = nsync_dll_make_last_in_list_ (to_wake_list, p);
 		}
 		/* Release spinlock and mark queue empty. */
 		ATM_STORE_REL (&pcv->word, 0); /* release store */
